@@ -67,7 +67,9 @@ def adjustGuard (a : Adjustment) : Option String :=
   let dashKey := fun (keys : List Str) => keys.any fun k => let (key, _) := isMarked k; key.head? == some '-'
   let emptyKey := fun (keys : List Str) => keys.any fun k => (isMarked k).1 == []
   let fams := [a.mounts.map (·.destination), a.env.map (·.key), a.devices.map (·.path)]
-  if fams.any listFam then some "set-then-remove order inside one response"
+  -- (set-then-remove list order inside one response used to be a guard: since fix 6eaf34c
+  --  the generator, like the collector, lets the set win whatever the order)
+  if false && fams.any listFam then some "set-then-remove order inside one response"
   else if (a.annotations.map (·.1) :: fams).any dashKey then some "key begins with the removal marker"
   else if (a.annotations.map (·.1) :: fams).any emptyKey then some "empty key"
   else if a.args == [[]] then some "bare args marker"
